@@ -299,4 +299,69 @@ def run(ctx, rep):
     check_kernels(ctx, rep)
     check_dispatch(ctx, rep)
     check_mode_order(ctx, rep, 'R-C02-8')
+    mode_selection_rule(ctx, rep, 'R-C02-8m')
     rep.extra['exhaustive'] = ctx.tier == 'thorough'
+
+
+def mode_selection_rule(ctx, rep, rid):
+    """which parity matrix an array uses is decided by its configuration: the third level is computed with the Vandermonde-style
+    matrix iff a `z-parity` line is present -- wherever that line stands.  lev_config_scan is called for every configuration tag
+    with a pointer to state->raid_mode; interpreted (E10, strcmp modelled) for every tag of the grammar and both prior values of the
+    mode it must (a) map the level names to their levels, (b) set the mode to Vandermonde for z-parity, (c) leave the mode untouched
+    for every other tag (a reset on unrelated lines silently switches a z-parity array to the Cauchy matrix)."""
+    from .. import region as RG
+    P = ctx.prog
+    f = P.fn('lev_config_scan')
+    rep.analysed(f)
+    rep.rule(rid, 'lev_config_scan over every configuration tag x prior mode: level names map to their levels; z-parity selects the alternate matrix; no other tag changes the mode', 1)
+    TAGS = {'parity': 0, '1-parity': 0, 'q-parity': 1, '2-parity': 1, 'r-parity': 2, '3-parity': 2, '4-parity': 3, '5-parity': 4, '6-parity': 5, 'z-parity': 2}
+    OTHER = ['data', 'disk', 'content', 'blocksize', 'hashsize', 'exclude', 'include', 'nohidden', 'autosave', 'pool', 'share', 'smartctl', 'extra-parity', 'zparity', '']
+    st = P.fn('state_config')
+    calls = list(st.calls('lev_config_scan'))
+    okc = bool(calls) and any(st.expr(c.ops[2]).endswith('state->raid_mode') for c in calls)
+    rep.check(okc, rid, 'state_config hands &state->raid_mode to lev_config_scan', calls[0].loc() if calls else st.file, '%d calls' % len(calls), function='state_config', construct='mode out-parameter')
+    bad = None; n = 0
+
+    def cstr(R, p):
+        if p.reg[0] == 'glob':
+            s_ = P.cstring(p.reg[1])
+            return s_[p.off:] if s_ is not None else None
+        out = []
+        o = p.off
+        while True:
+            b = R.mem.get((p.reg, o))
+            if b is None or b == 0:
+                break
+            out.append(chr(b)); o += 1
+        return ''.join(out)
+    for tag in list(TAGS) + OTHER:
+        for prior in (0, 1):
+            def ext(ins, args):
+                if ins.callee == 'strcmp':
+                    a, b = cstr(R, args[0]), cstr(R, args[1])
+                    if a is None or b is None:
+                        return None
+                    return ((a > b) - (a < b)) & 0xffffffff,
+                return None
+            R = RG.Region(P, extern=ext)
+            s = R.array('tag', [ord(c) for c in tag] + [0], 1)
+            lv = R.array('level', [77], 4)
+            md = R.array('mode', [prior], 4)
+            try:
+                rv = R.run(f, 0, [s, lv, md])
+            except RG.Unsupported as e:
+                raise AnalysisBroken('cannot interpret lev_config_scan: %s' % e)
+            n += 1
+            rv = RG.signed(rv & 0xffffffff, 32)
+            level = R.mem[(lv.reg, 0)]; mode = R.mem[(md.reg, 0)]
+            if tag in TAGS:
+                want_mode = 1 if tag == 'z-parity' else prior
+                okk = rv == 0 and level == TAGS[tag] and mode == want_mode
+                why = 'returns %d, level %d, mode %d (expected 0, %d, %d)' % (rv, level, mode, TAGS[tag], want_mode)
+            else:
+                okk = rv != 0 and mode == prior
+                why = 'returns %d, mode %d (expected a non-zero result and the mode left at %d)' % (rv, mode, prior)
+            if not okk and bad is None:
+                bad = 'tag "%s" with the mode previously %s: %s%s' % (tag, 'Vandermonde (z-parity seen)' if prior else 'Cauchy', why,
+                      ' -- a configuration line after `z-parity` resets the matrix: parity written by the reference version no longer verifies and cannot rebuild data' if prior == 1 and mode != 1 else '')
+    rep.check(bad is None, rid, 'lev_config_scan: tag -> (level, mode) table', f.file, '%d evaluations' % n if bad is None else bad, function='lev_config_scan', construct='mode selection')
